@@ -962,7 +962,8 @@ def judge_marginbox_doc(doc, page):
         if b['words'] and (at.startswith('top') or at.startswith('bottom')) and not at.endswith('corner'):
             maxc = (sum(len(w) for w in b['words']) + len(b['words']) - 1) * 10
             minc = max(len(w) for w in b['words']) * 10
-            if r['w'] >= maxc - E and r['nlines'] != 1:
+            # (a line whose right edge has a negative x loses 1e-9*|x| of its width in split_inline_box: not judged here)
+            if r['w'] >= maxc - E and r['nlines'] != 1 and r['x'] >= 0:
                 bad.append(('margin-box-needless-wrap', '@%s: width %s >= max-content %s but %d lines' % (at, r['w'], maxc, r['nlines'])))
             if r['w'] >= minc - E and any(lw > r['w'] + E for lw in r['line_w']):
                 bad.append(('margin-box-line-overflow', '@%s: a line is wider (%s) than the box (%s)' % (at, max(r['line_w']), r['w'])))
